@@ -533,6 +533,18 @@ def generate(rng, tier):
         vals = doms + [1] * tiny
         rng.shuffle(vals)
         cases.append({"kind": "scale", "values": vals, "total": rng.randrange(2, k) if k > 2 else 1, "exact": True})
+    for _ in range(60 if big else 12):
+        # weights that ALMOST sum to one (probabilities written with six decimals: 1 - 1e-5 < sum < 1 + 1e-5, sum != 1) with a large
+        # total: treating "close to 1" as 1 moves entries several units away from their proportional share (oracle only: not dyadic)
+        k = rng.choice([5, 8, 12, 30])
+        raw = [rng.random() for _ in range(k)]
+        tot = sum(raw)
+        vals = [Fraction(round(x / tot * 10 ** 6), 10 ** 6) for x in raw]
+        vals[0] += Fraction(rng.choice([-9, -7, -4, 3, 6, 9]), 10 ** 6) + (1 - sum(vals))
+        if vals[0] <= 0 or sum(vals) == 1:
+            continue
+        cases.append({"kind": "scale", "values": [rat(v) for v in vals], "total": rng.choice([10 ** 6, 10 ** 7 + 3, 10 ** 9, 2 ** 40 + 1]),
+                      "exact": False})
     for _ in range(10 if big else 2):
         # F18 (known): totals from 2**52 on
         cases.append({"kind": "scale", "values": [1, 2, 5], "total": 2 ** 53 + 1 + 2 * rng.randrange(0, 2 ** 20), "exact": False})
